@@ -1361,7 +1361,9 @@ def flw9(ctx):
     n = 0
     for fpath in ("asca::subrule::SubRule::transform", "asca::subrule::SubRule::substitution"):
         b = ctx.fn(lib, fpath)
-        root = b.hir["body"]
+        # a private helper that is lent the word being rewritten (`Self::delete_segment(&mut res_word, sp)`) is read in place
+        root = hirq.inline_helpers(lib, b, prefixes=("asca::subrule::SubRule::",), max_depth=1,
+                                   only_if=lambda cb: any(t == "&mut asca::word::Word" for t in (cb.param_tys or [])))
         par = parent_map(root)
         ordinal = {}
         for node in hirq.walk(root):
